@@ -544,16 +544,20 @@ fn bind_object(
                     continue;
                 }
 
-                bind_object_prop(
-                    context,
-                    scopes,
-                    names_in_binding,
-                    expr,
-                    rhs,
-                    (&prop_name, prop_name_loc),
-                    bind_type,
-                )
-                    .context(BindObjectSingleFailed)?;
+                // The shorthand `{_}` discards the property; a pair
+                // `{"_": x}` binds the property named "_" like any other.
+                if prop_name != "_" {
+                    bind_object_prop(
+                        context,
+                        scopes,
+                        names_in_binding,
+                        expr,
+                        rhs,
+                        (&prop_name, prop_name_loc),
+                        bind_type,
+                    )
+                        .context(BindObjectSingleFailed)?;
+                }
 
                 remaining_keys.remove(&prop_name);
             },
@@ -597,10 +601,6 @@ fn bind_object_prop(
 )
     -> Result<()>
 {
-    if prop_name.0 == "_" {
-        return Ok(());
-    }
-
     let new_loc_err = |source| {
         let (line, col) = prop_name.1;
 
